@@ -78,8 +78,8 @@ Lemma step_eager (s : st) (o : op) p :
     rows s' = rows s /\ eager_at s' (p + d) /\
     delivered x = firstn d (skipn p (rows s)) /\ length (delivered x) = d.
 Proof.
-  intros (Hl & Hc & Hp) Ha. destruct o as [|k| |n| | |r|r]; try discriminate;
-    unfold step; rewrite ?Hc, ?Hl.
+  intros (Hl & Hc & Hp) Ha. destruct o as [|k| |n| | |v|r|r]; try discriminate;
+    unfold step, materialized; rewrite ?Hc, ?Hl.
   - (* fetchone *)
     destruct (nth_error (rows s) p) as [r|] eqn:E.
     + exists 1. cbn [delivered rows lazy cur asz].
@@ -112,6 +112,10 @@ Proof.
   - exists 0. cbn [delivered rows lazy cur asz firstn length].
     split; [reflexivity|]. split; [|split; reflexivity].
     ea.
+  - (* observer with a report: nothing moves, the report is not a delivery *)
+    exists 0. destruct v; cbn [view_out delivered rows lazy cur asz firstn length].
+    + split; [reflexivity|]. split; [|split; reflexivity]. ea.
+    + split; [reflexivity|]. split; [|split; reflexivity]. ea.
   - (* failed append: nothing moves *)
     exists 0. cbn [delivered rows lazy cur asz firstn length].
     split; [reflexivity|]. split; [|split; reflexivity].
@@ -188,7 +192,7 @@ Qed.
 (* observers do not change an eager frame's state at all *)
 Lemma eager_observers_inert (s : st) :
   lazy s = false -> step s ObservePure = (s, OUnit) /\ step s ObserveMat = (s, OUnit).
-Proof. intros H; unfold step; rewrite H; split; reflexivity. Qed.
+Proof. intros H; unfold step, materialized; rewrite H; split; reflexivity. Qed.
 
 (* ---------- after append ---------- *)
 Definition dead (s : st) : Prop := lazy s = false /\ cur s = None.
@@ -196,7 +200,7 @@ Definition dead (s : st) : Prop := lazy s = false /\ cur s = None.
 Lemma step_dead (s : st) (o : op) :
   dead s -> dead (fst (step s o)) /\ (is_fetch o = true -> snd (step s o) = ORaise).
 Proof.
-  intros (Hl & Hc). destruct o; unfold step; rewrite ?Hc, ?Hl; cbn; unfold dead; cbn; repeat split; auto; discriminate.
+  intros (Hl & Hc). destruct o; unfold step, materialized; rewrite ?Hc, ?Hl; cbn; unfold dead; cbn; repeat split; auto; discriminate.
 Qed.
 
 Definition fetch_outs (ops : list op) (xs : list out) : list out :=
@@ -239,8 +243,8 @@ Lemma step_dead_full (s : st) (o : op) :
   dead s -> let '(s1, x) := step s o in
   dead s1 /\ rows s1 = rows s ++ appended_of o /\ delivered x = [].
 Proof.
-  intros (Hl & Hc). destruct o; unfold step; rewrite ?Hc, ?Hl;
-    cbn [appended_of delivered rows lazy cur]; unfold dead; cbn [rows lazy cur];
+  intros (Hl & Hc). destruct o as [|k| |n| | |v|r|r]; unfold step, materialized; rewrite ?Hc, ?Hl;
+    try destruct v; cbn [view_out appended_of delivered rows lazy cur]; unfold dead; cbn [rows lazy cur];
     rewrite ?app_nil_r; auto.
 Qed.
 
@@ -272,7 +276,7 @@ Proof.
     exists 0. cbn [firstn length]. replace (p + 0) with p by lia. auto.
   - destruct (is_append o) eqn:Ha.
     + (* an append that stores its row: the cursor is gone for the rest of the history *)
-      destruct o as [|k| |n| | |r0|r0]; try discriminate.
+      destruct o as [|k| |n| | |v|r0|r0]; try discriminate.
       pose proof (append_kills_cursor_aux s r0 p He) as H1.
       destruct (step s (Append r0)) as [s1 x]. destruct H1 as (D1 & R1 & F1).
       pose proof (run_dead_full r s1 D1) as H2.
@@ -342,6 +346,134 @@ Lemma append_atomic (s : st) (r : A) :
      s2 = s /\ x2 = OAppend false (Some (length (rows s)))).
 Proof. intros H. unfold step. rewrite H. cbn [rows cur]. repeat split. Qed.
 
+(* ---------- what an observer reports depends on the row store only ---------- *)
+Lemma view_after_any_history (l : list A) (ops : list op) (v : view) :
+  let '(s', xs) := run (init_eager l) ops in
+  step s' (ObserveView v) = (s', view_out v (l ++ appended ops)).
+Proof.
+  pose proof (any_history l ops) as H.
+  destruct (run (init_eager l) ops) as [s' xs]. destruct H as (R & Hl & _).
+  unfold step, materialized. now rewrite Hl, R.
+Qed.
+
+(* ---------- sessions over several frames ---------- *)
+Definition all_eager (h : list st) : Prop := Forall (fun s => lazy s = false) h.
+
+Lemma step_keeps_eager (s : st) (o : op) : lazy s = false -> lazy (fst (step s o)) = false.
+Proof.
+  intros H. destruct o as [|k| |n| | |v|r|r]; unfold step, materialized; rewrite ?H; cbn [fst lazy]; auto.
+  - destruct (cur s); cbn [fst lazy]; auto. destruct (nth_error (rows s) n); cbn [fst lazy]; auto.
+  - destruct (cur s); cbn [fst lazy]; auto.
+  - destruct (cur s); cbn [fst lazy]; auto.
+Qed.
+
+Lemma src_after_eager (d : dop A) (s : st) : lazy s = false -> src_after d s = s.
+Proof. intros H. destruct d; unfold src_after, materialized; now rewrite H. Qed.
+
+Lemma nth_error_update_eq (h : list st) : forall i s x,
+  nth_error h i = Some x -> nth_error (update h i s) i = Some s.
+Proof.
+  induction h as [|y t IH]; intros [|i] s x H; cbn in *; try discriminate; auto.
+  eapply IH; eauto.
+Qed.
+
+Lemma nth_error_update_neq (h : list st) : forall i j s,
+  i <> j -> nth_error (update h i s) j = nth_error h j.
+Proof.
+  induction h as [|y t IH]; intros [|i] [|j] s H; cbn; auto; try congruence.
+Qed.
+
+Lemma update_same (h : list st) : forall i s, nth_error h i = Some s -> update h i s = h.
+Proof.
+  induction h as [|y t IH]; intros [|i] s H; cbn in *; try discriminate; auto.
+  - now inversion H.
+  - f_equal. now apply IH.
+Qed.
+
+Lemma all_eager_update (h : list st) : forall i s,
+  all_eager h -> lazy s = false -> all_eager (update h i s).
+Proof.
+  unfold all_eager. induction h as [|y t IH]; intros [|i] s Hh Hs; cbn; auto;
+    inversion Hh; subst; constructor; auto.
+Qed.
+
+Lemma all_eager_nth (h : list st) i s : all_eager h -> nth_error h i = Some s -> lazy s = false.
+Proof.
+  unfold all_eager. intros Hh Hn. rewrite Forall_forall in Hh. apply Hh. eapply nth_error_In; eauto.
+Qed.
+
+(* A frame-returning observer called on a materialised frame leaves the whole heap as it was and
+   adds one brand-new frame that starts its own cursor at its own first row. *)
+Lemma derive_fresh (h : list st) (i : nat) (d : dop A) (s : st) :
+  nth_error h i = Some s -> lazy s = false ->
+  sstep h (Derive i d) =
+    (h ++ [init_eager (derive_rows d (rows s))], SDerived (derive_rows d (rows s))).
+Proof.
+  intros Hn Hl. unfold sstep. rewrite Hn. rewrite (src_after_eager d s Hl).
+  now rewrite (update_same h i s Hn).
+Qed.
+
+(* Frames are independent objects: in any session over materialised frames, the state of frame j
+   and everything the calls on frame j returned are those of frame j run ON ITS OWN over the calls
+   addressed to it - whatever was done to other frames (fetches, appends, failed appends) and
+   whatever was derived from any frame (j included) in between. *)
+Lemma srun_frames (ops : list (sop A)) : forall (h : list st),
+  all_eager h ->
+  let '(h', xs) := srun h ops in
+  all_eager h' /\ length h <= length h' /\
+  forall j s, nth_error h j = Some s ->
+    nth_error h' j = Some (fst (run s (sel j ops))) /\
+    outs_for j ops xs = snd (run s (sel j ops)).
+Proof.
+  induction ops as [|o r IH]; intros h Hh; cbn [srun].
+  - split; [exact Hh|]. split; [lia|]. intros j s Hj. cbn [sel flat_map run fst snd outs_for]. auto.
+  - destruct o as [i o0|i d]; cbn [sstep].
+    + destruct (nth_error h i) as [si|] eqn:Hi.
+      * destruct (step si o0) as [si' x] eqn:Es.
+        assert (Hsi : lazy si = false) by (eapply all_eager_nth; eauto).
+        assert (Hsi' : lazy si' = false).
+        { pose proof (step_keeps_eager si o0 Hsi) as K. now rewrite Es in K. }
+        assert (Hh1 : all_eager (update h i si')) by (apply all_eager_update; auto).
+        specialize (IH _ Hh1). destruct (srun (update h i si') r) as [h2 xs].
+        destruct IH as (E2 & L2 & F2). split; [exact E2|]. split.
+        { assert (length (update h i si') = length h) as Lu.
+          { clear. revert i. induction h as [|y t IHh]; intros [|i]; cbn; auto. }
+          lia. }
+        intros j s Hj. destruct (Nat.eqb i j) eqn:Eij.
+        -- apply Nat.eqb_eq in Eij. subst j. rewrite Hi in Hj. inversion Hj; subst s.
+           destruct (F2 i si' (nth_error_update_eq h i si' si Hi)) as [A1 A2].
+           unfold sel in *. cbn [flat_map sel_op outs_for]. rewrite Nat.eqb_refl. cbn [app run].
+           rewrite Es. destruct (run si' (flat_map (sel_op i) r)) as [s2 ys]. cbn [fst snd] in *.
+           split; [exact A1|now rewrite A2].
+        -- assert (i <> j) as Nij by (now apply Nat.eqb_neq).
+           assert (nth_error (update h i si') j = Some s) as Hj1 by (now rewrite nth_error_update_neq).
+           destruct (F2 j s Hj1) as [A1 A2].
+           unfold sel in *. cbn [flat_map sel_op outs_for]. rewrite Eij. cbn [app]. auto.
+      * specialize (IH h Hh). destruct (srun h r) as [h2 xs]. destruct IH as (E2 & L2 & F2).
+        split; [exact E2|]. split; [exact L2|]. intros j s Hj.
+        assert (Nat.eqb i j = false) as Eij.
+        { apply Nat.eqb_neq. intros ->. congruence. }
+        destruct (F2 j s Hj) as [A1 A2].
+        unfold sel in *. cbn [flat_map sel_op outs_for]. rewrite Eij. cbn [app]. auto.
+    + destruct (nth_error h i) as [si|] eqn:Hi.
+      * assert (Hsi : lazy si = false) by (eapply all_eager_nth; eauto).
+        rewrite (src_after_eager d si Hsi), (update_same h i si Hi).
+        assert (Hh1 : all_eager (h ++ [init_eager (derive_rows d (rows si))])).
+        { unfold all_eager in *. apply Forall_app. split; auto. }
+        specialize (IH _ Hh1). destruct (srun (h ++ [init_eager (derive_rows d (rows si))]) r) as [h2 xs].
+        destruct IH as (E2 & L2 & F2). split; [exact E2|]. split.
+        { rewrite app_length in L2. cbn in L2. lia. }
+        intros j s Hj.
+        assert (nth_error (h ++ [init_eager (derive_rows d (rows si))]) j = Some s) as Hj1.
+        { rewrite nth_error_app1; auto. apply nth_error_Some. congruence. }
+        destruct (F2 j s Hj1) as [A1 A2].
+        unfold sel in *. cbn [flat_map sel_op outs_for app]. auto.
+      * specialize (IH h Hh). destruct (srun h r) as [h2 xs]. destruct IH as (E2 & L2 & F2).
+        split; [exact E2|]. split; [exact L2|]. intros j s Hj.
+        destruct (F2 j s Hj) as [A1 A2].
+        unfold sel in *. cbn [flat_map sel_op outs_for app]. auto.
+Qed.
+
 (* ---------- lazy frames read only through the cursor ---------- *)
 Definition cursor_only (o : op) : bool := negb (is_append o) && negb (is_mat o).
 
@@ -352,7 +484,7 @@ Lemma step_lazy (s : st) (o : op) :
   let '(s', x) := step s o in
   lazy_live s' /\ delivered x ++ rows s' = rows s.
 Proof.
-  intros (Hl & p & Hc) Ho. destruct o as [|k| |n| | |r|r]; cbn in Ho; try discriminate;
+  intros (Hl & p & Hc) Ho. destruct o as [|k| |n| | |v|r|r]; cbn in Ho; try discriminate;
     unfold step; rewrite ?Hc, ?Hl; unfold lazy_live.
   - destruct (rows s) as [|r rest] eqn:E; cbn [delivered rows lazy cur app]; rewrite ?Hl, ?Hc, ?E; split; eauto.
   - cbn [delivered rows lazy cur app]. split; eauto. apply firstn_skipn.
@@ -393,4 +525,4 @@ Qed.
 End Proofs.
 
 Arguments cursor_only {A}. Arguments fetch_outs {A}. Arguments dead {A}. Arguments eager_at {A}.
-Arguments lazy_live {A}.
+Arguments lazy_live {A}. Arguments all_eager {A}.
